@@ -30,7 +30,16 @@ def decode(ds, path):
     return [int(np.asarray(e["a"]).reshape(-1)[0]) for e in it.iterate_shard(path)]
 
 
+def kval(meta):
+    """The metadata value of a shard (flat {"k": v} or nested {"k": {"id": v}})."""
+    v = meta.get("k", 0)
+    return int(v.get("id", 0)) if isinstance(v, dict) else int(v)
+
+
 def run_case(case, fmt, tmp, select=False):
+    # "fb+nested": the value lives one level down and the caller updates it in place
+    fmt, _, flag = fmt.partition("+")
+    nested = flag == "nested"
     root = Path(tmp) / "d"
     if root.exists():
         shutil.rmtree(root)
@@ -48,9 +57,12 @@ def run_case(case, fmt, tmp, select=False):
             for i, op in enumerate(case["ops"]):
                 if op[0] == "M":
                     d = objs.setdefault(op[1], {})
-                    d.clear()
-                    if op[2]:
-                        d["k"] = op[2]
+                    if nested and op[2] and isinstance(d.get("k"), dict):
+                        d["k"]["id"] = op[2]
+                    else:
+                        d.clear()
+                        if op[2]:
+                            d["k"] = {"id": op[2]} if nested else op[2]
                     raised.append(False)
                 else:
                     _, split, o, ok = op
@@ -76,7 +88,7 @@ def run_case(case, fmt, tmp, select=False):
                 ex = decode(ds, p)
             except Exception as e:  # noqa: BLE001
                 ex = f"undecodable:{type(e).__name__}"
-            out.append([sh.number_of_examples, ex, int(sh.custom_metadata.get("k", 0))])
+            out.append([sh.number_of_examples, ex, kval(sh.custom_metadata)])
         shards[str(si)] = out
     # what a reopened dataset reports
     try:
@@ -96,7 +108,7 @@ def run_case(case, fmt, tmp, select=False):
                 try:
                     got = [int(np.asarray(e["a"]).reshape(-1)[0]) for e in ds2.as_numpy_iterator(
                         split=SPLITS[si], repeat=False, shuffle=0,
-                        shard_filter=lambda s, v=v: int(s.custom_metadata.get("k", 0)) == v)]
+                        shard_filter=lambda s, v=v: kval(s.custom_metadata) == v)]
                 except Exception as ex:  # noqa: BLE001
                     got = f"{type(ex).__name__}"
                 selected[f"{si}:{v}"] = got
